@@ -71,6 +71,9 @@ def judge_group(cfg, parent_idx, parent_obs, kids):
             break
     if any(o.get("stateful") for _, o in kids):
         out.append((f"C05|{mk}|instance-remembers-earlier-sample", f"{mk}: evaluating the same sample twice on one test object gives different p-values: the history depends on draws of an earlier evaluation"))
+    if any(o.get("int_differs") for _, o in kids):
+        out.append((f"C05|{mk}|integer-typed-prefix", f"{mk}: a whole-number sample passed as an integer array gets another history than the same draws as the prefix of a longer "
+                    f"sample that contains a fraction (or as floats)"))
     if any(o.get("mutated") for _, o in kids):
         out.append((f"C05|{mk}|input-mutated", f"{mk}: test() changed the sample array it was given, so the next evaluation of the same draws sees other values"))
     # estimators / bets: the whole vector of the child is determined by the parent prefix
@@ -119,7 +122,7 @@ def run_cfg(cfg, rec):
 
 
 def explore(tier, seed):
-    return core.pmap(run_cfg, s1.configs(tier) + s1.long_configs(tier) + s1.bign_configs(tier), seed, progress="C05")
+    return core.pmap(run_cfg, s1.configs(tier) + s1.long_configs(tier) + s1.bign_configs(tier) + s1.vlong_configs(tier), seed, progress="C05")
 
 
 def run_case(case):
